@@ -7,7 +7,8 @@ Diagnostic for C08's panic-site inventory (used by checks/c08.py when `Moyo.C08.
 prints one line per undischarged site   `file|fn|kind|line|expr`
        one line per known-finding site  `KEY <key>|file|fn|expr`
        one line per stale record        `STALE file|fn|<matcher text>`   (a record that matches no site any more)
-       and a summary                    `SUMMARY sites=<n> by_fn_record=<a> by_bulk_rule=<b> undischarged=<c> known_finding_sites=<k> stale=<s>`
+       one line per changed fn          `REVIEW file|fn`   (fn text differs from the fingerprint its records were reviewed against)
+       and a summary                    `SUMMARY sites=<n> by_fn_record=<a> by_bulk_rule=<b> undischarged=<c> known_finding_sites=<k> stale=<s> review=<r>`
 -/
 open Moyo.C08Inv Moyo.C08Inv.Table Moyo.Generated.C08
 
@@ -26,5 +27,8 @@ def matcherText : Matcher → String
   let stale := staleRecords sitesByFile table
   for (file, fn, r) in stale do
     IO.println s!"STALE {file}|{fn}|{matcherText r.m}"
+  let changed := changedBodies sitesByFile table
+  for (file, fn) in changed do
+    IO.println s!"REVIEW {file}|{fn}"
   let (a, b, c) := tally sitesByFile table bulkRules
-  IO.println s!"SUMMARY sites={(allSites sitesByFile).length} by_fn_record={a} by_bulk_rule={b} undischarged={c} known_finding_sites={keys.length} stale={stale.length}"
+  IO.println s!"SUMMARY sites={(allSites sitesByFile).length} by_fn_record={a} by_bulk_rule={b} undischarged={c} known_finding_sites={keys.length} stale={stale.length} review={changed.length}"
